@@ -24,6 +24,8 @@ RULE = (
 ASSUMPTIONS = [
     "tolerances: affinity 1e-9*(|r0|+|r1|)*(1+|t|); round trips scaled by the conditioning of domain and range; end points compared with ==",
     "interpolate() other than the default linear interpolation is not exercised",
+    "floating-point reading of the relational clauses: a clamped output may differ from the nearer range end by one unit in the last place (the rounded "
+    "a(1-t)+bt; observed only on ranges a few ulps wide), and strictness is required only where the exact images are more than 4*ulp(range end)*(1+|t1|+|t2|) apart",
 ]
 
 
@@ -51,7 +53,25 @@ def rand_mag(rng, lo=-6, hi=9):
     return v if rng.random() < 0.5 else -v
 
 
+def _few_ulps(rng, a):
+    b = a
+    for _ in range(rng.choice([1, 1, 2, 3, 10, 1000])):
+        b = math.nextafter(b, math.inf if rng.random() < 0.5 or b == a else b + (b - a))
+    if b == a:
+        b = math.nextafter(a, math.inf)
+    return b
+
+
 def rand_domain(rng):
+    r = rng.random()
+    if r < 0.06:
+        # distinct ends a few units in the last place apart, or a tiny absolute distance apart: still a != b
+        a = rand_mag(rng)
+        if rng.random() < 0.5:
+            return [a, _few_ulps(rng, a)] if rng.random() < 0.5 else [_few_ulps(rng, a), a]
+        a = rand_mag(rng, -6, -3)
+        b = a + 10 ** rng.uniform(-16, -12) * rng.choice([1, -1])
+        return [a, b] if b != a else [a, math.nextafter(a, math.inf)]
     r = rng.random()
     if r < 0.15:
         return [0.0, rand_mag(rng)] if rng.random() < 0.5 else [rand_mag(rng), 0.0]
@@ -75,6 +95,9 @@ def rand_domain(rng):
 
 
 def rand_range(rng):
+    if rng.random() < 0.04:
+        a = rand_mag(rng, -6, 3)
+        return [a, _few_ulps(rng, a)] if rng.random() < 0.5 else [_few_ulps(rng, a), a]
     r = rng.random()
     if r < 0.4:
         c = rng.choice([[0, 100], [0, 360], [500, 0], [0, 1], [-50, 50], [960, 20]])
@@ -118,8 +141,18 @@ def static_case(ctx, mon, rng, S):
             # strict monotonicity on ordered samples spaced >= 1e-9 of the span (relative to conditioning)
             pts = sorted(zip(xs, ys))
             sign = 1 if (span_d > 0) == (span_r > 0) else -1
+            ulp = math.ulp(max(abs(r[0]), abs(r[1])))
             for (x1, y1), (x2, y2) in zip(pts, pts[1:]):
-                if x2 - x1 >= 1e-6 * abs(span_d) and not (sign * (y2 - y1) > 0):
+                if x2 - x1 < 1e-6 * abs(span_d):
+                    continue
+                # a range a few units in the last place wide has too few floats for strictness, and the rounded a(1-t)+bt carries
+                # an error of about ulp*(1+|t|): where the exact images are closer than twice that, only an inversion larger than
+                # it is a violation
+                t1, t2 = abs((x1 - d[0]) / span_d), abs((x2 - d[0]) / span_d)
+                err = 2 * ulp * (1 + t1 + t2)
+                exact_dy = abs(Fraction(x2) - Fraction(x1)) / abs(Fraction(d[1]) - Fraction(d[0])) * abs(Fraction(r[1]) - Fraction(r[0]))
+                ok = sign * (y2 - y1) > 0 if exact_dy > 2 * err else sign * (y2 - y1) >= -err
+                if not ok:
                     probs.append("not strictly monotone between x=%r and x=%r: %r, %r" % (x1, x2, y1, y2))
                     break
             for x, y in zip(xs, ys):
@@ -140,7 +173,7 @@ def static_case(ctx, mon, rng, S):
             lo, hi = min(r), max(r)
             dl, dh = min(d), max(d)
             for x, y in zip(xs, ys):
-                if not (lo <= y <= hi):
+                if not (lo - math.ulp(lo) <= y <= hi + math.ulp(hi)):
                     probs.append("clamped output %r leaves the range %r" % (y, r))
                     break
                 if dl <= x <= dh and abs(y - u(x)) > 1e-12 * (abs(lo) + abs(hi)):
